@@ -313,15 +313,15 @@ var controllerActors = map[string]bool{sim.ActorEDS: true, sim.ActorERS: true, s
 var c11Monitors = mon.Of("create-eligible", "create-once", "unknown-untouched", "budget", "canary-confinement", "canary-list-growth", "promotion-rule", "ownership", "no-panic")
 
 type scnResult struct {
-	Calls      int
-	WriteIdx   []int // indices (1-based, among controller calls) that are writes
-	Final      string
-	Viol       []mon.V
-	SettleN    int
-	Trace      []string
+	Calls        int
+	WriteIdx     []int // indices (1-based, among controller calls) that are writes
+	Final        string
+	Viol         []mon.V
+	SettleN      int
+	Trace        []string
 	FaultOnWrite bool
-	FaultCall  string
-	Milestones bool
+	FaultCall    string
+	Milestones   bool
 }
 
 // scnRun plays one scenario with an optional fault plan: faults[k] = kind for the k-th controller call.
